@@ -18,7 +18,7 @@ From Coq Require Import Permutation.
 From JV Require Import Model.Base Model.GoTime Gen.TypeGo Model.Schema Model.Value
   Model.Strconv Model.Json Model.Attr Model.SoftRes Model.Wrapper Model.Resource
   Model.Marshal Model.Unmarshal
-  Proofs.C06Facts Proofs.SoftFacts Proofs.WrapperFacts Proofs.C17Facts Proofs.C01Facts Proofs.C01Full Proofs.C01Wrapped.
+  Proofs.C06Facts Proofs.SoftFacts Proofs.WrapperFacts Proofs.C17Facts Proofs.C01Facts Proofs.C01Full Proofs.C01Wrapped Proofs.C01WrapFacts.
 
 Theorem C01_attr_roundtrip_partial : forall e a v,
   (1 <= acode a <= 14)%Z -> in_domain e a v ->
@@ -97,6 +97,26 @@ Theorem C01_wrapped_resource_roundtrip : forall e sc w prepath reldata want,
        exists v v', res_get (RWrap w) n = Ok v /\ res_get (RWrap w') n = Ok v' /\ same_rel v v').
 Proof. exact wrapped_resource_roundtrip. Qed.
 Print Assumptions C01_wrapped_resource_roundtrip.
+
+(* the typing half of those hypotheses is what Wrap guarantees: for a struct
+   that Wrap accepts (unique json names, aligned values) every attribute of
+   the wrapper sits in a slot of the Go type it declares, every relationship
+   in a string / string-list slot *)
+Theorem C01_wrap_attr_slots : forall d vals w,
+  wrap d vals = Ok w -> good_desc d -> length vals = length d ->
+  forall n a, In (n, a) (w_attrs w) ->
+  exists f v0, slot_value w n = Some (f, v0) /\ sf_type f = GTAttr (acode a) (anull a) /\
+               In (f, v0) (combine d vals) /\ sf_api f = "attr".
+Proof. exact wrap_attr_slot. Qed.
+Print Assumptions C01_wrap_attr_slots.
+
+Theorem C01_wrap_rel_slots : forall d vals w,
+  wrap d vals = Ok w -> good_desc d -> length vals = length d ->
+  forall n x, In (n, x) (w_rels w) ->
+  exists f v0, slot_value w n = Some (f, v0) /\ sf_type f = slot_type_of_rel x /\
+               In (f, v0) (combine d vals).
+Proof. exact wrap_rel_slot. Qed.
+Print Assumptions C01_wrap_rel_slots.
 
 (* its hypotheses are satisfiable: a struct with an ID, a string and a nil
    *int8 attribute, an empty to-one and a two-element to-many relationship *)
